@@ -444,3 +444,12 @@ def guarded(fn, *a, _timeout=2.0, **k):
     finally:
         signal.setitimer(signal.ITIMER_REAL, 0)
         signal.signal(signal.SIGALRM, old)
+
+
+def pmap(fn, jobs, workers=None):
+    """Parallel map over forked NON-daemonic worker processes (the code under test creates its own
+    multiprocessing pools, which daemonic pool workers are not allowed to do)."""
+    import concurrent.futures as cf
+    import multiprocessing as mp
+    with cf.ProcessPoolExecutor(max_workers=workers or NCPU, mp_context=mp.get_context('fork')) as ex:
+        return list(ex.map(fn, jobs))
